@@ -226,19 +226,50 @@ def c14(work, tier, seed):
     rep.traces += sum(r.nlines for r in tres)
     vlib.absorb_trace_results(rep, tres)
     # Engine.Position() after Engine.Reset / Move / TakeBack called directly (also after calls that fail)
+    mc_engine(work, rep, tier)
+    engine_api(work, vh, rep, "C14", seed, tier)
+    rep.assumptions = ["the position command path of the engine is exercised by C10; here the engine is driven through Reset / Move / TakeBack directly"]
+    return rep.finish(work)
+
+
+def mc_engine(work, rep, tier):
+    """TLC on Engine.tla over the abstract game: every sequence of public calls up to a bound; the variant in
+    which TakeBack forgets to halt the search must be rejected."""
+    quick = tier == "quick"
+    props = ["AnalyzeIffFree", "HaltIffHeld", "ErrorKeepsBoard", "OnlyAnalyzeLaunches", "SearchLeavesBoard"]
+    cfg = vlib.cfg_text(constants={"MaxCalls": 6 if quick else 8, "HaltOnMutate": "TRUE"}, invariants=["SearchesCurrent", "NoLeak"], properties=props)
+    r = vlib.tlc(work, "MCEngine", cfg, workers=8, timeout=1500, heap="4g", name="MCEngine", coverage=True)
+    vlib.need_tlc_ok(r, "MCEngine")
+    rep.add_tlc(r)
+    info = dict({"states": r.distinct, "max_calls": 6 if quick else 8}, **all_actions_taken(r, "Engine.tla"))
+    cfg = vlib.cfg_text(constants={"MaxCalls": 5, "HaltOnMutate": "FALSE"}, invariants=["SearchesCurrent"])
+    r = vlib.tlc(work, "MCEngine", cfg, workers=4, timeout=600, heap="2g", name="MCEngine-dev")
+    if r.ok or "Invariant SearchesCurrent is violated" not in (r.out or ""):
+        raise Inconclusive("Engine.tla: a TakeBack that does not halt the search is not rejected by SearchesCurrent")
+    info["deviation_rejected"] = "HaltOnMutate=FALSE violates SearchesCurrent"
+    rep.extra["mc_engine"] = info
+
+
+def engine_api(work, vh, rep, prop, seed, tier):
+    """The engine object driven through its public methods (vh ucipos -api), every call judged as one step of
+    Engine.tla by TraceUciPos: board calls for C14, the limit an analysis runs under for C15; what Engine.tla says
+    beyond the listed properties is reported as notes (x.engine-*)."""
+    quick = tier == "quick"
+
     def api(i):
         trace = work.path("engapi%d.ndjson" % i)
-        vlib.run_harness(work, vh, ["ucipos", "-api", "-seed", seed * 100 + 90 + i, "-n", 60 if tier == "quick" else 2500, "-cmds", 5 if i % 2 == 0 else 8, "-out", trace])
-        r = vlib.validate_trace(work, "TraceUciPos", ["C14"], trace, timeout=3300, heap="2g" if tier == "quick" else "4g")
-        r.stats = {"engine-api:" + k: sum(1 for line in open(trace) if '"kind":"%s"' % k in line) for k in ("reset", "move", "takeback")}
+        vlib.run_harness(work, vh, ["ucipos", "-api", "-seed", seed * 100 + 90 + i, "-n", 60 if quick else 2500, "-cmds", 5 if i % 2 == 0 else 8, "-out", trace], timeout=3000)
+        r = vlib.validate_trace(work, "TraceUciPos", [prop], trace, timeout=3300, heap="2g" if quick else "4g")
+        r.stats = {"engine-api:" + k: sum(1 for line in open(trace) if '"kind":"%s"' % k in line) for k in ("reset", "move", "takeback", "analyze", "halt")}
+        r.stats["engine-api:analysis-ended-by-itself"] = sum(1 for line in open(trace) if '"kind":"analyze"' in line and '"closed":-1' not in line and '"err":0' in line)
+        r.stats["engine-api:analysis-kept-running"] = sum(1 for line in open(trace) if '"kind":"analyze"' in line and '"closed":-1' in line and '"err":0' in line)
         return r
-    ares = vlib.run_many(api, range(2 if tier == "quick" else 8))
+    ares = vlib.run_many(api, range(2 if quick else 8))
     for r in ares:
         rep.counters(r.stats)
     vlib.absorb_trace_results(rep, ares)
-    require(rep, ["engine-api:reset", "engine-api:move", "engine-api:takeback"], "C14")
-    rep.assumptions = ["the position command path of the engine is exercised by C10; here the engine is driven through Reset / Move / TakeBack directly"]
-    return rep.finish(work)
+    require(rep, ["engine-api:reset", "engine-api:move", "engine-api:takeback", "engine-api:analyze", "engine-api:halt",
+                  "engine-api:analysis-ended-by-itself", "engine-api:analysis-kept-running"], prop)
 
 
 def mc_board(work, rep, tier):
@@ -647,6 +678,12 @@ def c17(work, tier, seed):
     vlib.absorb_trace_results(rep, results)
     if overl < 100:
         raise Inconclusive("C17: histories are not concurrent enough (%d overlapping invocations)" % overl)
+    # (2b) the tables an engine hands to its searches across new games while halted searches still store
+    etrace = work.path("enginett.ndjson")
+    vlib.run_harness(work, vh, ["tthammer", "-engine", "-seed", seed, "-n", 12 if quick else 300, "-out", etrace], timeout=1800)
+    er = vlib.validate_trace(work, "TraceTT", ["C17"], etrace, timeout=1200, heap="2g")
+    rep.counters({"engine-table-scenarios": er.nlines})
+    vlib.absorb_trace_results(rep, [er])
 
     # (3) the same hammer and two real searches sharing a table under the race detector: a race report
     # falsifies the atomicity the model assumes (DESIGN.md section 8)
@@ -654,8 +691,9 @@ def c17(work, tier, seed):
     trace = work.path("ttrace.ndjson")
     p = vlib.run_harness(work, vr, ["tthammer", "-seed", seed, "-n", 60 if quick else 600, "-calls", 10, "-g", 8, "-out", trace], check=False, timeout=1800)
     p2 = vlib.run_harness(work, vr, ["ttsearch", "-seed", seed, "-n", 3 if quick else 20], check=False, timeout=1800)
+    p3 = vlib.run_harness(work, vr, ["tthammer", "-engine", "-seed", seed, "-n", 6 if quick else 60, "-out", work.path("enginett-race.ndjson")], check=False, timeout=1800)
     races = 0
-    for pp, what in ((p, "tthammer"), (p2, "ttsearch")):
+    for pp, what in ((p, "tthammer"), (p2, "ttsearch"), (p3, "enginett")):
         txt = pp.stdout + pp.stderr
         if "WARNING: DATA RACE" in txt:
             races += 1
@@ -667,7 +705,7 @@ def c17(work, tier, seed):
             rep.violations.append(("c17.data-race", path))
         elif pp.returncode != 0:
             raise Inconclusive("race-detector run of %s failed: %s" % (what, txt[-2000:]))
-    rep.extra["race_detector_runs"] = 2
+    rep.extra["race_detector_runs"] = 3
     rep.extra["race_reports"] = races
     rep.assumptions = ["linearizability is decided over histories of <= ~80 calls by 2..8 goroutines on tables of 1, 2 and 4 slots; stamps come from one atomic counter (before the call / after it returns)",
                        "data-race freedom is a dynamic check (Go race detector) over the executed schedules, not a proof"]
@@ -1107,6 +1145,9 @@ def c15(work, tier, seed):
     rep.sample(vlib.read_line(results[-1].trace, 5)[:300])
     vlib.absorb_trace_results(rep, results)
     require(rep, ["iterrun", "iterhalt", "limits", "run-halted", "run-with-mate"], "C15")
+    # the limit an analysis started through the engine runs under: the requested one (0 = explicitly none), else
+    # the engine's default
+    engine_api(work, vh, rep, "C15", seed, tier)
     rep.assumptions = ["the published depths come from the hooks (exact even if the capacity-1 PV channel drops an intermediate depth for the consumer); scores/PVs are compared for the depths the draining consumer received",
                        "the oracle for each depth is the same search run directly at that depth on a fresh fork without a table (itself validated against Search.tla by C03); PVs are compared only with the table off",
                        "'reported before the halt was requested' is read off the controller's event sequence: iter.published events recorded before the harness's halt.call mark",
